@@ -4,6 +4,16 @@ from sklearn.neighbors import NearestNeighbors
 from .sklearn_transform_inv import BaseReciprocalTransformer
 
 
+def _log_1_plus_x(x):
+    "log(1+x), a named function can be pickled"
+    return numpy.log(x + 1)
+
+
+def _exp_x_minus_1(x):
+    "exp(x)-1, a named function can be pickled"
+    return numpy.exp(x) - 1
+
+
 class FunctionReciprocalTransformer(BaseReciprocalTransformer):
     """
     The transform is used to apply a function on a the target,
@@ -32,9 +42,9 @@ class FunctionReciprocalTransformer(BaseReciprocalTransformer):
         return {
             "log": (numpy.log, "exp"),
             "exp": (numpy.exp, "log"),
-            "log(1+x)": (lambda x: numpy.log(x + 1), "exp(x)-1"),
+            "log(1+x)": (_log_1_plus_x, "exp(x)-1"),
             "log1p": (numpy.log1p, "expm1"),
-            "exp(x)-1": (lambda x: numpy.exp(x) - 1, "log(1+x)"),
+            "exp(x)-1": (_exp_x_minus_1, "log(1+x)"),
             "expm1": (numpy.expm1, "log1p"),
         }
 
